@@ -9,11 +9,22 @@ RULE = ("enumerated part: count in {1..4} x base in {0,1,7} (rotating) x {SizeTr
         "pre-processing trigger with the same criterion} x builder mode in {append, truncate} x {plain, .gz} x two "
         "base histories (limit 0: a rotation at every append; limit 9: every second append) x EVERY step k of EVERY "
         "one of the first 4 rotations x {hook returns Err at (rotation, k); process dies at (rotation, k) and a fresh "
-        "appender in append mode / in truncate mode is started on a copy of the directory taken at that hook call}, "
+        "appender in append mode / in truncate mode is started on a copy of the directory taken at that hook call} "
+        "(thorough: all three at every point; quick: the Err at every point, the crash continuation at every point "
+        "of the limit-0 history with alternating restart mode and at the last rotation of the limit-9 history), "
         "each followed by >= 3 further appends (which rotate again); the hook also snapshots the directory at every "
-        "call of every rotation. Then the hook-free real failure: a non-empty directory at the top archive name "
-        "(EISDIR) placed after 0..count-1 completed rotations, 1-3 failing appends, removal, >= 3 appends, with "
-        "and without the hook installed. Then random histories (several faults/crashes/restarts/obstacle phases, "
+        "call of every rotation. Patterns with the index in the file name and in a DIRECTORY component "
+        "(arch/{}/a.log, {}/a.log, z/{}/a.gz). Then real file-system failures without injected errors: (a) a "
+        "non-empty directory at the top archive name (EISDIR) placed after 0..count-1 completed rotations, 1-3 "
+        "failing appends, removal, >= 3 appends, with and without the hook installed; (b) the directory of archive "
+        "slot j (every j < count) cannot be created - a dangling symlink or a regular file at its name - placed when "
+        "j or j-1 rotations have completed: every rotation must fail with Err at the predicted step with nothing "
+        "lost, and resume after removal. (c) EXPLORATION, outside the Coq model, direct oracle only: a rotation to a "
+        ".gz archive under RLIMIT_FSIZE = current size of the active file (SIGXFSZ ignored; incompressible record "
+        "payloads, so the active file fits and its archive does not: EFBIG while the gzip stream is written/finished): "
+        "the append must return Err and every acknowledged record must still be intact in the active file or in an "
+        "archive that decompresses completely (a truncated archive left behind counts for nothing), then >= 3 "
+        "unrestricted appends. Then random histories (several faults/crashes/restarts/obstacle phases, "
         "pre-existing archives with gaps, pre-existing active file, record sizes 3..12, limits 0..20). Compared per "
         "op: Ok/Err (a panic is a difference), every hook-call directory image with the model's exec_prefix, the "
         "whole directory after the op (gunzipped). Independently of the model (direct oracle on the real "
@@ -23,9 +34,11 @@ RULE = ("enumerated part: count in {1..4} x base in {0,1,7} (rotating) x {SizeTr
         "record is present, and whatever disappeared in one step is exactly the former top-index archive. "
         "non-trivial = the history contains a fault, a crash point or an obstacle phase; distinct = distinct case line")
 ASSUMPTIONS = [
-    "a failing rotation step leaves the directory untouched (the hook fails BEFORE the step; rename(2) and "
-    "open(2) failing with EISDIR do the same); a step failing half-way (copy fallback across mount points, "
-    "gzip output partially written, ENOSPC) is not modelled",
+    "a failing rotation step leaves the directory untouched (the hook fails BEFORE the step; rename(2)/open(2) "
+    "failing with EISDIR/ENOTDIR and create_dir_all failing on a dangling symlink or a regular file do the same); "
+    "a step failing half-way is NOT in the Coq model: the gzip-output-partially-written case (EFBIG) is explored "
+    "by the direct oracle only (family (c) of the rule: exploration, not proof); the copy+delete fallback across "
+    "mount points and ENOSPC on other steps are not exercised",
     "process death is modelled at the hook points (between two file-system steps); rename is atomic",
     "record writes succeed and are flushed whole (encode + flush; BufWriter internals are C04's subject)",
     "active path and archive names are pairwise distinct (C07's injectivity theorem covers `{}` patterns); "
